@@ -662,6 +662,8 @@ def run_check(machine, tier, seed=None, runs=None, jobs=None):
     reported = []
     known_lines = []
     new_violations = 0
+    harness_problem = False
+    confirmed_violation = False
     for key in sorted(groups, key=lambda k: (k[0], str(k[1]))):
         recs = groups[key]
         rec = min(recs, key=lambda r: (len(r["case"]["actions"]), r["i"]))
@@ -685,7 +687,7 @@ def run_check(machine, tier, seed=None, runs=None, jobs=None):
         if not ok:
             print("HARNESS-NONDETERMINISM property=%s class=%s replay=%s did not reproduce in a fresh process:\n%s"
                   % (machine.pid, viol["cls"], path, out[-1500:]))
-            status = 2
+            harness_problem = True
             continue
         if entry is not None:
             known_lines.append("KNOWN-FINDING: property=%s %s [%s; %d runs; replay=%s]" %
@@ -694,14 +696,19 @@ def run_check(machine, tier, seed=None, runs=None, jobs=None):
             new_violations += 1
             print("VIOLATION property=%s replay=%s" % (machine.pid, path))
             print("  class=%s runs=%d detail=%s" % (viol["cls"], len(recs), viol["detail"]))
-            status = 1 if status == 0 else status
+            confirmed_violation = True
     for line in known_lines:
         print(line)
+    # a confirmed, replayable violation decides the exit status; a harness problem only when there is none
+    if confirmed_violation:
+        status = 1
+    elif harness_problem and status == 0:
+        status = 2
 
     # determinism self-test
     st = selftest_determinism(machine, seed, results, machine.selftest_runs
                               if tier == "quick" else machine.selftest_runs * 4)
-    if not st["ok"]:
+    if not st["ok"] and not confirmed_violation:
         print("HARNESS-NONDETERMINISM property=%s selftest: %s" % (machine.pid, json.dumps(st)[:1500]))
         status = 2 if status == 0 else status
 
